@@ -542,6 +542,57 @@ func c07(c *Ctx) {
 			"StoreLogProto does not key the record by the entry's Index: the mark lands in a different slot")
 	}
 
+	// D3b: what StoreLogProto wrote can be read back whatever the store's settings are: applyProto stores the marked entry in the
+	// protobuf form into any store, so GetLog must choose the decoder by the record, not by a setting of the store
+	if gl := c.MustFunc("raftstore.(*LevelDBStore).GetLog"); gl != nil {
+		gi := gl.Info()
+		gg := c.Graph(gl)
+		var settings []*types.Var
+		var st *types.Struct
+		if fd, isFn := gl.Node().(*ast.FuncDecl); isFn {
+			if fo, _ := gi.Defs[fd.Name].(*types.Func); fo != nil {
+				if rv := fo.Type().(*types.Signature).Recv(); rv != nil {
+					t := rv.Type()
+					if pt, isP := t.(*types.Pointer); isP {
+						t = pt.Elem()
+					}
+					st, _ = t.Underlying().(*types.Struct)
+				}
+			}
+		}
+		if st != nil {
+			for i := 0; i < st.NumFields(); i++ {
+				if b, isB := st.Field(i).Type().Underlying().(*types.Basic); isB && b.Info()&types.IsBoolean != 0 {
+					settings = append(settings, st.Field(i))
+				}
+			}
+		}
+		reach := gg.Reach(gg.Entry, nil, func(e *cfgx.Edge) bool {
+			if e.Cond == nil {
+				return false
+			}
+			for _, f := range settings {
+				if mentionsField(gi, e.Cond, f) {
+					return true
+				}
+			}
+			return false
+		})
+		nDec := 0
+		for _, v := range gg.Nodes() {
+			for _, call := range astx.Calls(v.Node, false) {
+				fn := astx.Callee(gi, call)
+				if fn == nil || fn.Name() != "Unmarshal" || fn.Pkg() == nil || !strings.HasSuffix(fn.Pkg().Path(), "/proto") {
+					continue
+				}
+				nDec++
+				r.Check(reach[v.ID], "C07.D3", gl.Name(), "a record in the marked form is decoded whatever the store's settings", c.P.Pos(call.Pos()), "proto.Unmarshal reachable without a test of a store setting",
+					"GetLog decodes the protobuf form only under a setting of the store: the marked entry, which applyProto always stores in that form, cannot be read back from a store with the other setting, and the node stops at it on every start")
+			}
+		}
+		r.Check(nDec > 0, "C07.D3", gl.Name(), "GetLog decodes the form StoreLogProto writes", c.P.Pos(gl.Node().Pos()), "proto.Unmarshal present", "GetLog has no decoder for the form StoreLogProto writes")
+	}
+
 	// D4: the MessageOfDeath arm is pure
 	ag := c.Graph(arm)
 	ai := arm.Info()
@@ -617,6 +668,31 @@ func c07(c *Ctx) {
 		})
 	}
 	r.Floor("C07.D5", 1)
+	// D1e one place recovers: a panic raised while an entry is applied must arrive at applyProto's deferred function, which marks
+	// the entry and lets the node die. A recover() anywhere below it (ProcessMessage "answering with an internal error", a
+	// handler wrapper) swallows the panic: the entry is never marked, the half-applied step stays, and the node carries on
+	{
+		nRec := 0
+		for _, pk := range []string{"main", "ircserver", "outputstream", "robust", "raftstore", "raftlog", "config"} {
+			for _, fi := range c.P.FuncsIn(pk) {
+				if fi.Body() == nil {
+					continue
+				}
+				info := fi.Info()
+				for _, call := range astx.Calls(fi.Body(), true) {
+					if astx.Builtin(info, call) != "recover" {
+						continue
+					}
+					nRec++
+					r.Check(fi.Name() == "main.(*FSM).applyProto", "C07.D1", fi.Name(), "recover() is called by applyProto's deferred function only", c.P.Pos(call.Pos()), "the one recovery point of the state machine",
+						"a panic raised while an entry is applied is recovered in "+shortName(fi)+" and never reaches applyProto: the entry is not marked as a message of death, the node goes on with the step half done, and every replay runs the same code again")
+				}
+			}
+		}
+		if nRec < 1 {
+			r.Break("C07.D1: no recover() found in the state machine")
+		}
+	}
 	c.c07PanicCommand()
 }
 
